@@ -125,6 +125,23 @@ def impl_static(X, Y, sigma, chunk):
     return call(go)
 
 
+def impl_setters(X, Y, sigma, chunk):
+    """kernel and chunk_size assigned through the public setters AFTER construction: compare and the stand-alone
+    statistic (what the permutation test evaluates) must both use them; returns (fitted, static)"""
+    from frouros.detectors.data_drift.batch import MMD
+
+    def go():
+        det = MMD()
+        det.kernel = kernel_of(sigma)
+        det.chunk_size = chunk
+        det.fit(X=X)
+        a = float(det.compare(X=Y)[0].distance)
+        b_ = float(det.statistical_method(X, Y, **det.statistical_kwargs))
+        return a, b_
+
+    return call(go)
+
+
 def impl_refit(X1, X2, Y, sigma, chunk, with_reset):
     from frouros.detectors.data_drift.batch import MMD
 
@@ -297,6 +314,15 @@ def run(ck: Check):
                         dict(clause="estimator", path=path, chunk=cc, ndim=1 if d is None else 2),
                         dict(replay_kind="batch", what=f"MMD ({path} path) differs from the unbiased estimator", X=X.tolist(), Y=Y.tolist(), sigma=sigma, chunk_size=c, path=path, got=got, expected=expected),
                     )
+        if sigma is not None:
+            cset = rng.choice(chunks)
+            r = impl_setters(X, Y, sigma, cset)
+            ck.count("setter_cases")
+            if not (isinstance(r, tuple) and close(r[0], expected, 1e-9, 1e-12) and close(r[1], expected, 1e-9, 1e-12)):
+                ck.violation(
+                    dict(clause="estimator", path="setters"),
+                    dict(replay_kind="batch", what="kernel / chunk_size assigned through the setters: compare or the stand-alone statistic differs from the unbiased estimator with that kernel", X=X.tolist(), Y=Y.tolist(), sigma=sigma, chunk_size=cset, path="setters", got=r, expected=expected),
+                )
         ck.case(dict(kind="batch", data=kind, ndim=1 if d is None else 2, d=d, n=n, m=m, sigma=sigma, chunk_sizes=len(chunks), mmd=expected), nontrivial=ragged, key=repr((X.tolist(), Y.tolist(), sigma)))
         ck.count("data_" + kind)
         ck.count("ndim_1" if d is None else f"dim_{d}")
